@@ -64,6 +64,10 @@ def spCase (K : Nat) (L : Layout) : Case := do
   pure (some [toString L.dim, toString L.dcov, toString L.dn, s.str])
 def spValid (K : Nat) (L : Layout) : Prop := 1 ≤ K ∧ 1 ≤ L.dcov
 
+def utwCase (dof : Nat) : Case := do
+  let n ← unscentedWeights dof
+  pure (some [toString n, toString n])
+
 def UTRes.tokens (r : UTRes) : List String :=
   [b01 r.valid, toString r.K, toString r.O.dim, toString r.O.dcov, (r.O.meanS r.K).str, (r.O.covS r.K).str, r.cross.str]
 
@@ -143,6 +147,68 @@ def kfCase (I : Layout) (K : Nat) (C : Layout) (cK hm hn ysize : Nat) (mvalid : 
 /-- the linear model's matrix has one column per state coordinate, which are also the covariance coordinates -/
 def kfValid (I : Layout) (K : Nat) (C : Layout) (cK hm hn ysize : Nat) : Prop :=
   1 ≤ K ∧ I.dn = 0 ∧ C = I ∧ cK = K ∧ 1 ≤ hm ∧ hn = I.dim ∧ hn = I.dcov ∧ ysize = hm
+
+/-! #### call sequences on one object -/
+
+/-- one call of a sequence: the number of components of the beliefs passed in, and what the measurement model reports -/
+structure CStep where
+  K : Nat
+  mv : Bool
+  pv : Bool
+  iv : Bool
+deriving DecidableEq, Repr
+
+def MMod.withFlags (M : MMod) (s : CStep) : MMod := { M with mvalid := s.mv, pvalid := s.pv, ivalid := s.iv }
+
+/-- successive `correct()` + `getLikelihood()` on ONE UKFCorrection object -/
+def ukfSeq (additive : Bool) (I : Layout) (M : MMod) : UKFMem → List CStep → W (List String)
+  | _, [] => pure []
+  | mem, s :: ss => do
+    let (mem', L, k) ← ukfStep additive mem I s.K I s.K (M.withFlags s)
+    let (lv, ls) ← ukfLik mem'
+    let rest ← ukfSeq additive I M mem' ss
+    pure (s!"{k}:{(L.meanS k).str}:{b01 lv}:{ls}" :: rest)
+
+def ukfSeqCase (additive : Bool) (I : Layout) (M : MMod) (steps : List CStep) : Case := do
+  let t ← ukfSeq additive I M UKFMem.init steps
+  pure (some t)
+def ukfSeqValid (additive : Bool) (I : Layout) (M : MMod) (steps : List CStep) : Prop :=
+  ∀ s ∈ steps, ukfValid additive I s.K I s.K (M.withFlags s)
+
+/-- successive `correct()` + `getLikelihood()` on ONE SUKFCorrection object -/
+def sukfSeq (I : Layout) (M : MMod) (sub : Nat) (reduced : Bool) : SUKFMem → List CStep → W (List String)
+  | _, [] => pure []
+  | mem, s :: ss => do
+    let (mem', L, k) ← sukfStep mem I s.K I s.K (M.withFlags s) sub reduced
+    let (lv, ls) ← sukfLikelihood mem'.inn mem'.prop M.rr sub reduced
+    let rest ← sukfSeq I M sub reduced mem' ss
+    pure (s!"{k}:{(L.meanS k).str}:{b01 lv}:{ls}" :: rest)
+
+def sukfSeqCase (I : Layout) (M : MMod) (sub : Nat) (reduced : Bool) (steps : List CStep) : Case := do
+  let t ← sukfSeq I M sub reduced SUKFMem.init steps
+  pure (some t)
+def sukfSeqValid (I : Layout) (M : MMod) (sub : Nat) (reduced : Bool) (steps : List CStep) : Prop :=
+  ∀ s ∈ steps, sukfValid I s.K I s.K (M.withFlags s) sub reduced
+
+/-- successive `getNoiseSample(n)` and `motion` on `n` columns on ONE WhiteNoiseAcceleration object -/
+def wnaSeqCase (d : Dim) (nums : List Nat) : Case := do
+  let m ← wnaCtor d
+  let toks ← nums.foldlM (fun (acc : List String) n => do
+    let s ← wnaNoise m n
+    let mot : Shape := ⟨d.n, n⟩
+    additiveMotion m.F (wnaNoise m) ⟨d.n, n⟩ mot
+    pure (acc ++ [s.str, mot.str])) []
+  pure (some toks)
+
+/-- successive `getNoiseSample(n)` on ONE LinearModel object -/
+def lmSeqCase (n : Nat) (comps : List Nat) (nums : List Nat) : Case := do
+  match (← lmCtor n comps ⟨comps.length, comps.length⟩) with
+  | none => pure none
+  | some m => do
+    let toks ← nums.foldlM (fun (acc : List String) k => do
+      let s ← lmNoise m k
+      pure (acc ++ [s.str])) []
+    pure (some toks)
 
 /-! #### containers -/
 def gmaccCase (K : Nat) (L : Layout) (which : String) (i j k : Nat) : Case := do
@@ -247,6 +313,8 @@ instance (N a b : Nat) (I : Layout) (p : Nat) : Decidable (rwpValid N a b I p) :
 instance (ls cs : Nat) (f : Bool) (a : EEArgs) : Decidable (eeValid ls cs f a) := by unfold eeValid; infer_instance
 instance (m c : Nat) : Decidable (gpfSampleValid m c) := by unfold gpfSampleValid; infer_instance
 
+instance (a : Bool) (I : Layout) (M : MMod) (st : List CStep) : Decidable (ukfSeqValid a I M st) := by unfold ukfSeqValid; infer_instance
+instance (I : Layout) (M : MMod) (sub : Nat) (r : Bool) (st : List CStep) : Decidable (sukfSeqValid I M sub r st) := by unfold sukfSeqValid; infer_instance
 instance (I : Layout) (M : MMod) : Decidable (ukfSupported I M) := by unfold ukfSupported; infer_instance
 instance (I : Layout) : Decidable (sukfSupported I) := by unfold sukfSupported; infer_instance
 
